@@ -1,14 +1,187 @@
-// C16 harness, round 3 (continued): single EM steps of scalar mixtures with normal components.
+// C16 harness, round 3 (continued): EM steps of scalar mixtures with normal components
+// (scalarEstimator.MixtureEstimator over NormalEstimator components), hook trace for the single-step replay.
 package main
 
 import (
+	"fmt"
+	"math"
+
 	. "adharness/common"
 
+	st "github.com/pbenner/autodiff/statistics"
+	"github.com/pbenner/autodiff/statistics/generic"
+	se "github.com/pbenner/autodiff/statistics/scalarEstimator"
 	tp "github.com/pbenner/threadpool"
 )
 
-func executeEmNormal(c *Case3, pool tp.ThreadPool) { c.Err = true }
-func emNormalKeys(c *Case3, t tab)                  {}
-func emNormalCoq(c *Case3) string                   { return "?" }
-func genEmNormal(r *Rng) *Case3                     { return genVNormal(r) }
-func oracleEmNormal(c *Case3) string                { return "" }
+func executeEmNormal(c *Case3, pool tp.ThreadPool) {
+	xs := ffs(c.Xs[0])
+	ests := make([]st.ScalarEstimator, c.K)
+	for k := 0; k < c.K; k++ {
+		e, err := se.NewNormalEstimator(c.P0[k][0].f(), c.P0[k][1].f(), c.Bound.f())
+		if err != nil {
+			Die("normal component: %v", err)
+		}
+		ests[k] = e
+	}
+	c.Trace = nil
+	hook := generic.EmHook{Value: func(m generic.BasicMixture, i int, lik, eps float64) {
+		p := m.GetParameters()
+		h := Hook{I: i, Lik: fs(lik), Eps: fs(eps)}
+		for k := 0; k < c.K; k++ {
+			h.Lw = append(h.Lw, fs(p.At(k).GetFloat64()))
+		}
+		for k := 0; k < c.K; k++ {
+			h.Ps = append(h.Ps, []FS{fs(p.At(c.K + 2*k).GetFloat64()), fs(p.At(c.K + 2*k + 1).GetFloat64())})
+		}
+		c.Trace = append(c.Trace, h)
+		if len(c.Trace) > 100 {
+			panic("EM driver does not stop")
+		}
+	}}
+	e, err := se.NewMixtureEstimator(ffs(c.W0), ests, c.Eps.f(), c.MaxSteps, hook)
+	if err == nil {
+		err = e.EstimateOnData(vec(xs), nil, pool)
+	}
+	if err != nil {
+		c.Err = true
+		return
+	}
+	for _, h := range c.Trace {
+		for _, row := range h.Ps {
+			for _, v := range row {
+				if math.IsNaN(v.f()) || math.IsInf(v.f(), 0) {
+					c.Err = true
+					c.Tag += "|em-empty-component-nan"
+					return
+				}
+			}
+		}
+		for _, v := range h.Lw {
+			if math.IsNaN(v.f()) {
+				c.Err = true
+				return
+			}
+		}
+	}
+	// the replay needs the exp arguments in the range where the rational check of the argument is tight
+	for _, h := range c.Trace {
+		for _, row := range h.Ps {
+			for _, x := range xs {
+				if a := enArg(x, row[0].f(), row[1].f()); !(a >= -60) {
+					c.Err = true
+					c.Tag += "|em-arg-out-of-range"
+					return
+				}
+			}
+		}
+	}
+}
+
+// the argument of exp in the normal density, evaluated exactly as Corr3.en_arg does
+func enArg(x, mu, s float64) float64 {
+	d := float64(x - mu)
+	q := float64(d * d)
+	v := float64(s * s)
+	return -float64(q / float64(2*v))
+}
+
+func emNormalKeys(c *Case3, t tab) {
+	xs := ffs(c.Xs[0])
+	for _, h := range c.Trace {
+		for _, v := range h.Lw {
+			t.add(v.f())
+		}
+		for _, row := range h.Ps {
+			for _, x := range xs {
+				t.add(enArg(x, row[0].f(), row[1].f()))
+			}
+		}
+		t.add(h.Lik.f())
+	}
+}
+
+func emNormalCoq(c *Case3) string {
+	hs := make([]string, len(c.Trace))
+	for i, h := range c.Trace {
+		rows := make([]string, len(h.Ps))
+		for k, r := range h.Ps {
+			rows[k] = FList(ffs(r))
+		}
+		hs[i] = fmt.Sprintf("(%d, %s, %s, %s, %s)", h.I, FList(ffs(h.Lw)), List(rows), F(h.Lik.f()), F(h.Eps.f()))
+	}
+	ms := "None"
+	if c.MaxSteps >= 0 {
+		ms = fmt.Sprintf("(Some %d)", c.MaxSteps)
+	}
+	return fmt.Sprintf("C3EmNormal %d %s %s %s %s %s", c.K, F(c.Bound.f()), FList(ffs(c.Xs[0])), F(c.Eps.f()), ms, List(hs))
+}
+
+func genEmNormal(r *Rng) *Case3 {
+	c := &Case3{Kind: "emnormal", K: r.Range(1, 3)}
+	n := r.Range(3, 10)
+	xs := make([]float64, n)
+	for i := range xs {
+		// two loose clusters of dyadic values, repeats likely
+		xs[i] = float64(r.Range(-12, 12))/4 + float64(r.Intn(2))*4
+	}
+	c.Xs = [][]FS{fss(xs)}
+	c.W0 = fss(dyadicSimplex(r, c.K, false))
+	for k := 0; k < c.K; k++ {
+		c.P0 = append(c.P0, fss([]float64{float64(r.Range(-8, 24)) / 4, float64(r.Range(4, 16)) / 4}))
+	}
+	c.Bound = fs([]float64{0.0078125, 0.5, 1, 1.5}[r.Intn(4)])
+	c.MaxSteps = []int{1, 2, 3}[r.Intn(3)]
+	c.Eps = fs([]float64{0, 1e-6, 1e-2, -1}[r.Intn(4)])
+	c.Tag = fmt.Sprintf("emnormal|k%d|ms%d", c.K, c.MaxSteps)
+	return c
+}
+
+// mixture log-likelihood under the parameters of a hook record
+func emNormalLoglik(c *Case3, h Hook) float64 {
+	s := 0.0
+	for _, x := range ffs(c.Xs[0]) {
+		t := math.Inf(-1)
+		for k := 0; k < c.K; k++ {
+			mu, sg := h.Ps[k][0].f(), h.Ps[k][1].f()
+			lp := -math.Log(sg) - 0.5*math.Log(2*math.Pi) - (x-mu)*(x-mu)/(2*sg*sg)
+			t = logAdd(t, h.Lw[k].f()+lp)
+		}
+		s += t
+	}
+	return s
+}
+
+func oracleEmNormal(c *Case3) string {
+	if c.Err || len(c.Trace) < 2 {
+		return ""
+	}
+	ll := make([]float64, len(c.Trace))
+	for t, h := range c.Trace {
+		ll[t] = emNormalLoglik(c, h)
+		for k := range h.Ps {
+			if t >= 1 && h.Ps[k][1].f() < c.Bound.f() {
+				return fmt.Sprintf("after %d EM steps component %d has sigma = %v below SigmaMin = %v", t, k, h.Ps[k][1].f(), c.Bound.f())
+			}
+		}
+	}
+	for t := 1; t < len(c.Trace); t++ {
+		// the initial components need not respect SigmaMin; from step 1 on every M-step is the constrained optimum
+		if ll[t] < ll[t-1]-1e-9*(math.Abs(ll[t-1])+1) && (t >= 2 || initAdmissible(c)) {
+			return fmt.Sprintf("EM step %d with normal components decreased the log-likelihood: %.12g -> %.12g", t, ll[t-1], ll[t])
+		}
+		if !relClose(c.Trace[t].Lik.f(), ll[t-1], 1e-9) {
+			return fmt.Sprintf("hook %d reports likelihood %.12g, the mixture of iteration %d has %.12g", t, c.Trace[t].Lik.f(), t-1, ll[t-1])
+		}
+	}
+	return ""
+}
+
+func initAdmissible(c *Case3) bool {
+	for _, p := range c.P0 {
+		if p[1].f() < c.Bound.f() {
+			return false
+		}
+	}
+	return true
+}
